@@ -63,6 +63,11 @@ def _ev(e, env):
         return {_ev(x, env) for x in e.elts}
     if isinstance(e, ast.UnaryOp) and isinstance(e.op, ast.Not):
         return not _ev(e.operand, env)
+    if isinstance(e, ast.UnaryOp) and isinstance(e.op, (ast.USub, ast.UAdd)):
+        v = _ev(e.operand, env)
+        if isinstance(v, (int, float)) and not isinstance(v, bool):
+            return -v if isinstance(e.op, ast.USub) else v
+        raise AnalysisError("unary minus on a non-number")
     if isinstance(e, ast.BoolOp):
         v = None
         for x in e.values:
